@@ -64,7 +64,7 @@ Walk(t, i, m, a) ==
           ELSE Walk(t, i + 1, s.m, s.a)
 
 Verdict(t) ==
-  LET m0 == MInit(t.len, t.seekable, t.chunk) IN
+  LET m0 == MInit(t.len, t.seekable, t.pastend, t.chunk) IN
   IF ~StateEq(m0, t.init) THEN [bad |-> -1, why |-> "M-init", dev |-> ""]
   ELSE Walk(t, 1, m0, [len |-> t.len, pos |-> 0, C |-> t.chunk])
 
